@@ -59,7 +59,7 @@ Inductive site :=
 | S_embed_buffer (nested : bool) (size pad : Z)
 | S_create_buffer (sized : bool) (id_size header_pad : Z)   (* sized = is_nested || with_size *)
 | S_create_struct (size pad : Z)
-| S_create_vtable (vt_size : Z) (clustered : bool)          (* clustered = is_top_buffer && !disable_vt_clustering *)
+| S_create_vtable (vt_size vt_pad : Z) (clustered : bool)   (* clustered = is_top_buffer && !disable_vt_clustering; front vtables are padded to voffset alignment *)
 | S_create_table (size pad : Z)
 | S_create_vector (vec_size vec_pad : Z)
 | S_create_offset_vector (vec_size vec_pad : Z)
@@ -73,7 +73,7 @@ Definition site_pushes (s : site) : list (Z * bool) :=
   | S_embed_buffer nested size pad => [(field_size, nested); (size, true); (pad, true)]
   | S_create_buffer sized id_size hp => [(field_size, sized); (field_size, true); (id_size, true); (hp, true)]
   | S_create_struct size pad => [(size, true); (pad, true)]
-  | S_create_vtable vt _ => [(vt, true)]
+  | S_create_vtable vt vp clustered => (vt, true) :: (if clustered then [] else [(vp, true)])
   | S_create_table size pad => [(field_size, true); (size, true); (pad, true)]
   | S_create_vector vs vp => [(field_size, true); (vs, true); (vp, true)]
   | S_create_offset_vector vs vp => [(field_size, true); (vs, true); (vp, true)]
@@ -83,7 +83,7 @@ Definition site_pushes (s : site) : list (Z * bool) :=
 Definition site_back (s : site) : bool :=
   match s with
   | S_align_end _ => true
-  | S_create_vtable _ clustered => clustered
+  | S_create_vtable _ _ clustered => clustered
   | _ => false
   end.
 
@@ -108,12 +108,37 @@ Fixpoint run_sites (toolarge : Z -> bool) (st : bst) (h : list (site * bool)) : 
     match snd (fst x) with Some c => c :: rest | None => rest end
   end.
 
+(* the state after the calls of [h] (same recursion as run_sites; stays where the first failing call left it) *)
+Fixpoint final_sites (toolarge : Z -> bool) (st : bst) (h : list (site * bool)) : bst :=
+  match h with
+  | [] => st
+  | (s, accept) :: r =>
+    let x := emit_site toolarge st s accept in
+    if snd x then final_sites toolarge (fst (fst x)) r else fst (fst x)
+  end.
+
+(* flatcc_builder_custom_reset (hence flatcc_builder_reset), for the default and for custom emitters alike:
+   B->emit_start = 0; B->emit_end = 0; *)
+Definition bst_reset (st : bst) : bst := {| emit_start := 0; emit_end := 0 |}.
+
+(* build, reset, build again ...: one trace of emit calls per round *)
+Fixpoint run_rounds (toolarge : Z -> bool) (st : bst) (rounds : list (list (site * bool))) : list (list call) :=
+  match rounds with
+  | [] => []
+  | h :: r => run_sites toolarge st h :: run_rounds toolarge (bst_reset (final_sites toolarge st h)) r
+  end.
+
 (* inventory of the call sites for the source scan in checks/c12.py: (number of push_iov, may go front, may go back) *)
 Definition site_inventory : list (Z * bool * bool) :=
-  [ (1, false, true); (3, true, false); (4, true, false); (2, true, false); (1, true, true);
+  [ (1, false, true); (3, true, false); (4, true, false); (2, true, false); (2, true, true);
     (3, true, false); (3, true, false); (3, true, false); (3, true, false) ].
 Definition site_repr : list site :=
-  [ S_align_end 1; S_embed_buffer true 1 1; S_create_buffer true 4 1; S_create_struct 1 1; S_create_vtable 4 true;
+  [ S_align_end 1; S_embed_buffer true 1 1; S_create_buffer true 4 1; S_create_struct 1 1; S_create_vtable 4 0 true;
+    S_create_table 1 1; S_create_vector 1 1; S_create_offset_vector 1 1; S_create_string 1 1 ].
+
+(* the same sites with the variant that pushes the most pieces (front vtable: vtable + padding) *)
+Definition site_repr_max : list site :=
+  [ S_align_end 1; S_embed_buffer true 1 1; S_create_buffer true 4 1; S_create_struct 1 1; S_create_vtable 4 0 false;
     S_create_table 1 1; S_create_vector 1 1; S_create_offset_vector 1 1; S_create_string 1 1 ].
 
 (* ------------------------------------------------------------------ the property's shape predicate *)
@@ -140,6 +165,6 @@ Definition valid_site (s : site) : Prop :=
   Forall (fun p => 0 <= fst p < 2 ^ 62) (site_pushes s) /\
   match s with
   | S_align_end p => p < 65536
-  | S_create_vtable vt _ => 4 <= vt < 65536
+  | S_create_vtable vt _ _ => 4 <= vt < 65536
   | _ => True
   end.
